@@ -806,6 +806,11 @@ func (fc *followerController) handleSnapshot(stream proto.OxiaLogReplication_Sen
 		fc.closeStreamNoMutex(errors.Wrap(err, "Failed to update term in db"))
 	}
 
+	// A new DB instance always starts with notifications enabled: it has to follow the options of the
+	// term, as in the constructor and in NewTerm. Otherwise this replica would store notification batches
+	// for the entries it applies on top of the snapshot, while the other replicas of the shard do not
+	newDb.EnableNotifications(fc.termOptions.NotificationsEnabled)
+
 	commitOffset, err := newDb.ReadCommitOffset()
 	if err != nil {
 		fc.closeStreamNoMutex(errors.Wrap(err, "Failed to read committed offset in the new snapshot"))
